@@ -116,7 +116,11 @@ func (rl *TokenBucketRateLimiter) cleanup() {
 		b := value.(*bucket)
 
 		b.mutex.Lock()
-		shouldDelete := b.lastRefill.Before(cutoff)
+		// Only drop a bucket that would have refilled to full anyway: a re-created
+		// bucket starts full, so dropping a partially refilled one would hand the
+		// client more than the token-bucket bound allows.
+		refilled := b.tokens + int(now.Sub(b.lastRefill)/rl.refillRate)
+		shouldDelete := b.lastRefill.Before(cutoff) && refilled >= rl.maxTokens
 		b.mutex.Unlock()
 
 		if shouldDelete {
